@@ -572,7 +572,7 @@ def salt_strategy(max_salts):
     st = _st()
     suffix = st.text(alphabet=SUFFIX_ALPHABET, min_size=8, max_size=8)
     return st.lists(st.fixed_dictionaries({
-        "kind": st.sampled_from(["sidecar", "sidecar", "tmp", "tmp", "tmp", "meta_tmp", "meta_tmp", "zst", "tilde", "bak", "dir",
+        "kind": st.sampled_from(["sidecar", "sidecar", "tmp", "tmp", "real_tmp", "real_tmp", "real_meta_tmp", "meta_tmp", "meta_tmp", "zst", "tilde", "bak", "dir",
                                  "pr34_sidecar", "pr34_zst", "snap_sidecar", "snap_tmp", "orphan_sidecar", "orphan_tmp"]),
         "suffix": suffix,
         "content": st.sampled_from(["body", "body", "truncated", "sidecar", "garbage", "empty"]),
@@ -727,11 +727,15 @@ def salt_name(s, agents):
         "snap_tmp": f"snap_000009.json.{suf}",
         "orphan_sidecar": f"state_ghost{s['target']}.json.meta",
         "orphan_tmp": f"state_ghost{s['target']}.json.{suf}",
+        # the next two are placeholders: the real name is asked from the writer itself (io.atomic._make_tmp), so a change
+        # to how the atomic writer names its temporaries is seen by discovery exactly as after a killed write
+        "real_tmp": f"state_{ag}.json",
+        "real_meta_tmp": f"state_{ag}.json.meta",
     }[k]
 
 
 SIDECARISH = {"sidecar", "meta_tmp", "pr34_sidecar", "snap_sidecar", "orphan_sidecar"}
-TEMPISH = {"tmp", "meta_tmp", "snap_tmp", "orphan_tmp"}
+TEMPISH = {"tmp", "meta_tmp", "snap_tmp", "orphan_tmp", "real_tmp", "real_meta_tmp"}
 
 
 def apply_salts(snap_dir, salts, agents, clock, tag):
@@ -741,6 +745,10 @@ def apply_salts(snap_dir, salts, agents, clock, tag):
         name = salt_name(s, agents)
         p = os.path.join(snap_dir, name)
         labels.append("salt:" + s["kind"])
+        if s["kind"] in ("real_tmp", "real_meta_tmp"):
+            from pathlib import Path
+            from clematis.io.atomic import _make_tmp
+            p = str(_make_tmp(Path(p)))  # the leftover of a write killed before its rename
         if s["kind"] == "dir":
             os.makedirs(p, exist_ok=True)
             clock.salt(p)
